@@ -588,6 +588,11 @@ func (g *Gen) evalIdent(x *CExpr, env *Env) (Val, error) {
 	if name == "rangeindex" && env.loopIdx != nil {
 		return *env.loopIdx, nil
 	}
+	if env.st != nil {
+		if v, ok := env.st.cells["bind$"+name]; ok {
+			return v, nil
+		}
+	}
 	if name == "nil" {
 		return Val{T: "0", S: "Int", Ty: types.Typ[types.UntypedNil]}, nil
 	}
